@@ -60,8 +60,8 @@ Section C09.
     unfold TR. intros T. repeat split; intros.
     - eapply synth_fast_general; eauto.
     - eapply analysis_fast_general; eauto.
-    - eapply synth_fast_padding_zero; eauto.
-    - eapply analysis_fast_extra_zero; eauto.
+    - eapply synth_fast_padding_zero with (M:=M) (L:=L) (I:=I) (J:=J) (If:=If); eauto.
+    - eapply analysis_fast_extra_zero with (M:=M) (L:=L) (I:=I) (J:=J) (Lf:=Lf); eauto.
   Qed.
 
   (** the re-indexing: Pi . E = id; E puts zeros in the extra row and the padding *)
@@ -108,8 +108,8 @@ Section C09.
        = analysis_fast_u rev' Mh' If' Jf' ff' pf' wf' z' (phi a) l).
   Proof.
     unfold TR. intros. split; intros.
-    - eapply base_multiple_irrelevant_synth; eauto.
-    - eapply base_multiple_irrelevant_analysis; eauto.
+    - eapply base_multiple_irrelevant_synth with (M:=M) (L:=L) (I:=I) (J:=J) (If:=If) (If':=If') (wf:=wf) (wf':=wf'); eauto.
+    - eapply base_multiple_irrelevant_analysis with (M:=M) (L:=L) (I:=I) (J:=J) (Lf:=Lf) (Lf':=Lf'); eauto.
   Qed.
 End C09.
 
